@@ -177,6 +177,7 @@ func runC10(c *Ctx) {
 	// ---- R4 ------------------------------------------------------------------------------------
 	c.Rule("R4", "time-queue bundles: each ConsumeIdsFromTimeQueue call passes prefix/get/delete-all/append of the same queue and a positive constant limit, and iterates its result; inside, the slot computation is limit - len(result accumulator), entries later than the block time end the scan, and processed timestamps are deleted", 12)
 	checkQueueBundles(c, "")
+	c.RunsEveryBlock("provider.AppModule.BeginBlock", "pk.Keeper.BeginBlockLaunchConsumers", "launch-driver-runs-every-block")
 	c.KeyShapeIs("pt.SpawnTimeToConsumerIdsKey", "Const(SpawnTimeToConsumerIdsKeyName)·Time(param:spawnTime)", "the launch queue is scanned in time order and the scan stops at the first future entry")
 	// accessors agree on the key constructor of their queue
 	for _, fam := range [][]string{
